@@ -168,6 +168,32 @@ Theorem C18_generate_error_located :
 Proof. exact generate_error_located. Qed.
 Print Assumptions C18_generate_error_located.
 
+(** the order of generate-stage faults: option errors before any printer, a printer error before any write *)
+Theorem C18_generate_option_required_first : forall p x0,
+  g_schema_output (pj_gen p) = None -> g_module_specifier (pj_gen p) = false ->
+  generate_body p x0
+  = RErr (plain (s "Option 'schemaOutput' is required for the 'generate' command. ")) (add_run x0 GENERATE).
+Proof. exact generate_option_required_first. Qed.
+Print Assumptions C18_generate_option_required_first.
+
+Theorem C18_generate_schema_printer_error_first : forall p x0 o e,
+  g_schema_output (pj_gen p) = Some o -> g_emit_runtime (pj_gen p) && is_dts (abs_output p (Some o)) = false ->
+  pj_print_schema p = SErr e ->
+  generate_body p x0 = RErr e (add_run x0 GENERATE).
+Proof. exact generate_schema_printer_error_first. Qed.
+Print Assumptions C18_generate_schema_printer_error_first.
+
+Theorem C18_generate_option_error_reported_first :
+  forall f, exists texts,
+    run_texts (both_generate_faults_witness f) = Some (1, texts)
+    /\ flat_map (locations_of (s "/w/schema.graphql")) texts = []
+    /\ existsb (fun t => starts_with (s "Option 'schemaOutput' is required") t
+                         || starts_with (s "'check' finished
+Error in command 'generate':
+Option 'schemaOutput' is required") t) texts = true.
+Proof. exact generate_option_error_reported_first. Qed.
+Print Assumptions C18_generate_option_error_reported_first.
+
 (** every structured diagnostic of the json document names a file of the file store, labelled with the
     stage kind of a recorded error and carrying that error's line and column *)
 Theorem C18_json_diagnostics_name_store_files : forall p code out err w,
